@@ -278,6 +278,30 @@ def _end_bound(f, ref, depth=0):
     return bool(lib.load_terms(f, affine(f, ref), 'dr_pi_dag_node.subgraphs_end_offset'))
 
 
+def kind_edge_of(f, point, pred, c, roots):
+    """`point` executes only where info.kind of one of the nodes `roots` was established to be == c (pred 'create') or >= c ('section')"""
+    for ic in f.order:
+        if ic.op == 'icmp' and const_int(ic.ops[1]) is not None:
+            l = f.get(f.strip(ic.ops[0]))
+            if l is None or l.op != 'load' or f.field(l) != 'dr_dag_node_info.kind':
+                continue
+            if f.strip(f.ap(l.ops[0]).root) not in roots:
+                continue
+            k = const_int(ic.ops[1])
+            for cond, pol in lib.cond_chain(f, ic.id):
+                for want in (True, False):
+                    if not f.on_edge(cond, want == pol, point):
+                        continue
+                    if pred == 'create' and ((ic.pred == 'eq' and k == c and want) or (ic.pred == 'ne' and k == c and not want)):
+                        return True
+                    if pred == 'section' and ((ic.pred in ('ult', 'slt') and k == c and not want) or
+                                              (ic.pred in ('uge', 'sge') and k == c and want) or
+                                              (ic.pred in ('ugt', 'sgt') and k == c - 1 and want) or
+                                              (ic.pred in ('ule', 'sle') and k == c - 1 and not want)):
+                        return True
+    return False
+
+
 def rule12_dump_layout(ctx, w):
     ctx.doc('C19.12', 'position-independent copy of a recorded DAG (dr_pi_dag_enum_nodes / dr_copy_children_nodes): the table has exactly '
             'dr_dag_count_nodes(g) entries, the root is entry 0, every child is copied at the allocation cursor and the offset stored in '
@@ -307,27 +331,7 @@ def rule12_dump_layout(ctx, w):
         return None
 
     def kind_edge(point, pred, c):
-        for ic in f.order:
-            if ic.op == 'icmp' and const_int(ic.ops[1]) is not None:
-                l = f.get(f.strip(ic.ops[0]))
-                if l is None or l.op != 'load' or f.field(l) != 'dr_dag_node_info.kind':
-                    continue
-                if f.strip(f.ap(l.ops[0]).root) not in (gpi, g):
-                    continue
-                k = const_int(ic.ops[1])
-                for cond, pol in lib.cond_chain(f, ic.id):
-                    for want in (True, False):
-                        if not f.on_edge(cond, want == pol, point):
-                            continue
-                        # the icmp is `want`
-                        if pred == 'create' and ((ic.pred == 'eq' and k == c and want) or (ic.pred == 'ne' and k == c and not want)):
-                            return True
-                        if pred == 'section' and ((ic.pred in ('ult', 'slt') and k == c and not want) or
-                                                  (ic.pred in ('uge', 'sge') and k == c and want) or
-                                                  (ic.pred in ('ugt', 'sgt') and k == c - 1 and want) or
-                                                  (ic.pred in ('ule', 'sle') and k == c - 1 and not want)):
-                            return True
-        return False
+        return kind_edge_of(f, point, pred, c, (gpi, g))
     copies = call_sites(f, 'dr_copy_dag_node_1')
     one = {'': nsz}
     nz = lambda d: {k: v for k, v in d.items() if v != 0}
@@ -382,8 +386,10 @@ def rule12_dump_layout(ctx, w):
             d0 = nz(lib.affine_diff(f, val, p0)) if isinstance(val, str) else None
             if kind_edge(anchor, 'section', SEC):
                 ok = okcur and v_ == cur.id
-            elif kind_edge(anchor, 'create', CRE):
-                ok = d0 == one
+            elif kind_edge(anchor, 'create', CRE) or (sc and lib.reaches_point(f, sc[0], anchor)):
+                # every return that can follow the copy of a create_task's child hands back the cursor behind it
+                ok = d0 == one and not (sc and not kind_edge(anchor, 'create', CRE) and
+                                        lib.reaches_point(f, f.entry_inst(), anchor, blocked=[sc[0]] + sb, include_start=True))
             else:
                 ok = d0 == {}
             ctx.ob('C19.12', 'copy_children: returns the advanced cursor', ok,
@@ -451,9 +457,24 @@ def rule12_dump_layout(ctx, w):
         pch = [c for c in call_sites(cn, 'dr_dag_node_stack_push_children') if c.block.id in L['blocks'] and cn.strip(c.args[1]) == pops[0].id]
         psh = [c for c in call_sites(cn, 'dr_dag_node_stack_push') if c.block.id in L['blocks'] and is_load_of(cn, c.args[1], 'dr_dag_node.child')]
         okc = okc and len(pch) == 1 and len(psh) == 1
+        if okc:
+            x = pops[0].id
+            okc = kind_edge_of(cn, pch[0], 'section', SEC, (x,)) and kind_edge_of(cn, psh[0], 'create', CRE, (x,)) and \
+                is_load_of(cn, psh[0].args[1], 'dr_dag_node.child') and cn.strip(cn.ap(cn.get(cn.strip(psh[0].args[1])).ops[0]).root) == x and \
+                any(lib.guarded_by_nonnull(cn, l.id, psh[0]) for l in cn.order if l.op == 'load' and cn.field(l) == 'dr_dag_node.child' and
+                    cn.strip(cn.ap(l.ops[0]).root) == x)
     ctx.ob('C19.12', 'count_nodes: one per popped node; pushes the child of a create_task and the subgraphs of a section / task', okc,
            'the count is the number of entries the enumeration writes', loc=cn.loc)
-    ctx.floor('C19.12', 20)
+    for fn_, rootp in ((cn, 'a0'), (e, 'a1')):
+        ini = call_sites(fn_, 'dr_dag_node_stack_init')
+        use = [c for c in fn_.calls() if c.callee in ('dr_dag_node_stack_push', 'dr_dag_node_stack_pop', 'dr_dag_node_stack_push_children')]
+        okst = len(ini) == 1 and bool(use) and all(fn_.dominates_f(ini[0], c) and lib.same_addr(fn_, c.args[0], ini[0].args[0]) for c in use)
+        rootpush = [c for c in call_sites(fn_, 'dr_dag_node_stack_push') if not fn_.in_loop(c) and same_value(fn_, c.args[1], rootp)]
+        pp = call_sites(fn_, 'dr_dag_node_stack_pop')
+        ctx.ob('C19.12', '%s: work stack initialised, then seeded with the root, then drained' % fn_.name,
+               okst and len(rootpush) == 1 and bool(pp) and all(fn_.dominates_f(rootpush[0], c) for c in pp),
+               'init(s); push(s, g); while (s->top) pop', loc=fn_.loc)
+    ctx.floor('C19.12', 22)
 
 
 def rule10_halfopen(ctx):
@@ -858,6 +879,9 @@ def rule4_strings(ctx, w):
             return len(own) == 1 and av[own[0]] == 1 and av.get('', 0) == 1 and len([k for k in av if av[k] != 0]) == 2
         ns = [st for st in f.stores_to(ST + 'n') if incr(st)]
         ctx.ob('C19.4', 'n incremented on every path', bool(ns) and f.always_passes(c, ns), 'the index handed out next is n', loc=c.loc)
+        ss_ = [st for st in f.stores_to('dr_string_table_cell.s') if is_c(f.ap(st.ops[1]).root)]
+        ctx.ob('C19.4', 'new cell holds the string', len(ss_) == 1 and same_value(f, ss_[0].ops[0], f.param_named('s') or 'a1') and
+               f.always_passes(c, ss_), 'c->s = s (find compares it, flatten copies it)', loc=c.loc)
         nx = [st for st in f.stores_to('dr_string_table_cell.next') if is_c(f.ap(st.ops[1]).root) and
               isinstance(st.ops[0], dict) and st.ops[0].get('null')]
         ctx.ob('C19.4', 'new cell terminates the list', bool(nx), 'c->next = 0', loc=c.loc)
